@@ -35,6 +35,43 @@ def effects_of(finfo):
     for n in walk_no_nested(finfo.node):
         if isinstance(n, ast.Global):
             globs |= set(n.names)
+    # local aliases of attributes (`store = self.rules`): a write through
+    # the alias is a write to the attribute.  Only names bound exactly once,
+    # to an attribute chain rooted at a parameter or self.
+    bound = {}
+    for n in walk_no_nested(finfo.node):
+        tg = []
+        if isinstance(n, ast.Assign):
+            tg = n.targets
+        elif isinstance(n, (ast.AugAssign, ast.AnnAssign, ast.For,
+                            ast.comprehension)):
+            tg = [n.target]
+        elif isinstance(n, ast.NamedExpr):
+            tg = [n.target]
+        elif isinstance(n, (ast.With,)):
+            tg = [i.optional_vars for i in n.items if i.optional_vars]
+        for t in tg:
+            for x in ast.walk(t):
+                if isinstance(x, ast.Name) and isinstance(
+                        x.ctx, ast.Store):
+                    bound.setdefault(x.id, []).append(
+                        n.value if isinstance(n, ast.Assign) and len(
+                            n.targets) == 1 and n.targets[0] is x else None)
+    alias = {}
+    for nm, vals in bound.items():
+        if len(vals) == 1 and isinstance(vals[0], ast.Attribute) and \
+                nm not in finfo.params:
+            r = _root(vals[0])
+            if isinstance(r, ast.Name) and (r.id == 'self'
+                                            or r.id in finfo.params):
+                alias[nm] = U(vals[0])
+
+    def apath(expr):
+        t = U(expr)
+        head = t.split('.', 1)[0].split('[', 1)[0]
+        if head in alias:
+            return alias[head] + t[len(head):]
+        return t
     for n in walk_no_nested(finfo.node):
         targets = []
         if isinstance(n, ast.Assign):
@@ -44,14 +81,14 @@ def effects_of(finfo):
         elif isinstance(n, ast.Delete):
             for t in n.targets:
                 if isinstance(t, ast.Subscript):
-                    out.append(Effect('del', U(t.value), n, finfo))
+                    out.append(Effect('del', apath(t.value), n, finfo))
                 elif isinstance(t, ast.Attribute):
                     out.append(Effect('del', U(t), n, finfo))
             continue
         elif isinstance(n, ast.Call):
             mc = method_call(n)
             if mc and mc[1] in MUTATORS:
-                out.append(Effect('mutcall:' + mc[1], U(mc[0]), n, finfo))
+                out.append(Effect('mutcall:' + mc[1], apath(mc[0]), n, finfo))
             continue
         flat = []
         for t in targets:
@@ -63,7 +100,7 @@ def effects_of(finfo):
             if isinstance(t, ast.Attribute):
                 out.append(Effect('store', U(t), n, finfo))
             elif isinstance(t, ast.Subscript):
-                out.append(Effect('substore', U(t.value), n, finfo))
+                out.append(Effect('substore', apath(t.value), n, finfo))
             elif isinstance(t, ast.Name) and t.id in globs:
                 out.append(Effect('global', t.id, n, finfo))
     return out
